@@ -27,6 +27,71 @@ def body(t):
     return {k: t.get(k) for k in BODY_KEYS}
 
 
+def gen_clause_args(rng):
+    from props import C01 as P1
+    k = rng.randrange(7)
+    if k == 0:
+        return ["TS", P1.kwc(rng, "TABLESPACE"), rng.choice(["ts1", "Users_ts", "t_2"]), ""]
+    if k == 1:
+        return ["ST", P1.kwc(rng, "STORED"), P1.kwc(rng, "AS"), rng.choice(["TEXTFILE", "parquet", "ORC"])]
+    if k == 2:
+        return ["LO", P1.kwc(rng, "LOCATION"), rng.choice(["'s3://b/p'", "'/data/x y'", "'p'"]), ""]
+    if k == 3:
+        return ["EN", P1.kwc(rng, "ENGINE"), rng.choice(["InnoDB", "MyISAM", "x1"]), ""]
+    if k == 4:
+        return ["CO", P1.kwc(rng, "COMMENT"), rng.choice(["'tbl'", "'a b c'", "'x-1'"]), ""]
+    if k == 5:
+        return ["US", P1.kwc(rng, "USING"), rng.choice(["parquet", "delta", "csv"]), ""]
+    return ["IN", P1.kwc(rng, "IN"), rng.choice(["ts1", "space_2"]), ""]
+
+
+def theorem_forms(ctx, res):
+    """the forms under C11_clauses_after_the_table_exact: the expected entity is the extracted Coq denote_x; whole runs are compared
+    with the model's run"""
+    from props import C01 as P1
+    from props import C02 as P2
+    rng = ctx.rng
+    n = 1200 if ctx.thorough else 250
+    asts = []
+    for i in range(n):
+        t = G.gen_table(rng, constraints=(i % 2 == 0), ncols=rng.choice([1, 2, 3, 5]))
+        t["items"] = [it for it in t["items"] if it[0] != "check"]
+        cl = []
+        for _ in range(rng.choice([0, 1, 1, 2, 3, 5, 8])):
+            c = gen_clause_args(rng)
+            if c[0] == "IN" and cl and cl[-1][0] == "TS":
+                continue                   # TABLESPACE x IN ... is one clause for the grammar
+            cl.append(c)
+        args = P2.clause_args(t, rng) + ["CLAUSES"] + [x for c in cl for x in c]
+        asts.append((t, cl, args))
+    for norm in (False, True):
+        sp = ctx.model.map([("tabx_spec", ["1" if norm else "0"] + a) for _, _, a in asts])
+        texts = [P1.text_of_lexemes(s_["lexemes"], rng) if "lexemes" in s_ else None for s_ in sp]
+        SC = ctx.model.map([("scan", [t or ""]) for t in texts])
+        TR = ctx.impl.map([{"op": "trace", "s": t or "", "ctor": {"normalize_names": norm}} for t in texts])
+        res.evaluations += len(asts)
+        for (t, cl, a), s_, x, sc, tr in zip(asts, sp, texts, SC, TR):
+            if not s_.get("wf") or "ok" not in s_.get("denote", {}):
+                res.count("theorem_form:not_wf")
+                continue
+            res.count("theorem_form:clauses:%d" % len(cl))
+            if "ok" not in sc or [list(l) for l in sc["ok"]] != [list(l) for l in s_["lexemes"]]:
+                res.violation("correspondence", "the scanner model does not cut the rendered statement into the lexemes of the specification",
+                              stmt=x, oracle="scan")
+                continue
+            io = impl_outcome(tr)
+            got = canon_impl(io[1]["result"]) if io[0] == "ok" and io[1]["result"] is not None else ("raise/none", str(io)[:200])
+            if got != canon_model(s_["denote"]["ok"]):
+                res.violation("input", "parser stage: the entity differs from the Coq specification (Table.denote_x): %s" %
+                              (json.dumps(py_of_impl(io[1]["result"]))[:600] if io[0] == "ok" else str(io)), stmt=x, norm=norm, args=a,
+                              oracle="coq_denote")
+            else:
+                res.nontrivial.add(x)
+        if not norm:
+            corr_run(ctx, res, [x.rstrip() + ";\n" for x, s_ in zip(texts, sp) if x and s_.get("wf")][:: (1 if ctx.thorough else 3)],
+                     label="F:run(clause forms)")
+
+
 def run(ctx, res):
     rng = ctx.rng
     compat = set(json.load(open(os.path.join(VERIF, "harness", "c11_compat.json"))))
@@ -127,6 +192,8 @@ def run(ctx, res):
             res.nontrivial.add(ddl)
     res.samples.append({"ddl": cases[0][3], "mode": cases[0][4]})
     res.samples.append({"ddl": cases[-1][3], "mode": cases[-1][4]})
+    if ctx.model:
+        theorem_forms(ctx, res)
 
 
 def replay(ctx, payload):
